@@ -57,7 +57,7 @@ def do_import():
             out = dict(property=meta.get('property', prop), breaks=meta.get('summary') or meta.get('breaks'), needs_to_manifest=meta.get('needs') or meta.get('needs_to_manifest'), files=meta.get('files'),
                        author='independent sub-agent given only the property text and a scratch worktree',
                        author_ran=meta.get('ran') or meta.get('author_ran'),
-                       confirmed_by_me=dict(worktree='%s (scratch git worktree of /repo HEAD, removed afterwards)' % (('/tmp/wt6_%s' if prop in ('C01', 'C02', 'C03', 'C08', 'C10', 'C11', 'C13', 'C15', 'C16', 'C17') else '/tmp/wt7_%s') % prop if sid.endswith('_10') or sid.endswith('_11') else '/tmp/wt5_%s' % prop if sid[-1] in '89' else ('/tmp/wt4_%s' if prop in ('C01', 'C04', 'C06', 'C07', 'C08', 'C13', 'C14', 'C15', 'C16', 'C17') else '/tmp/wt3_%s') % prop if sid[-1] in '67' else '/tmp/wt2_%s' % prop if sid[-1] in '45' else '/tmp/wt_%s' % prop),
+                       confirmed_by_me=dict(worktree='%s (scratch git worktree of /repo HEAD, removed afterwards)' % ('/tmp/wt8_%s' % prop if sid.endswith('_12') or sid.endswith('_13') else ('/tmp/wt6_%s' if prop in ('C01', 'C02', 'C03', 'C08', 'C10', 'C11', 'C13', 'C15', 'C16', 'C17') else '/tmp/wt7_%s') % prop if sid.endswith('_10') or sid.endswith('_11') else '/tmp/wt5_%s' % prop if sid[-1] in '89' else ('/tmp/wt4_%s' if prop in ('C01', 'C04', 'C06', 'C07', 'C08', 'C13', 'C14', 'C15', 'C16', 'C17') else '/tmp/wt3_%s') % prop if sid[-1] in '67' else '/tmp/wt2_%s' % prop if sid[-1] in '45' else '/tmp/wt_%s' % prop),
                                             ran=['git apply patch.diff', 'cmake -G Ninja + cmake --build', './randomx-tests', ver.get('demo_cmd'), 'git checkout -- . ; rebuild ; demo again'],
                                             patch_applies=ver.get('applies'), builds=ver.get('builds'), tests_passed=ver.get('tests_passed', 0) - 1, all_tests_pass=ver.get('tests_ok'),
                                             demo_exit_with_patch=ver.get('demo_with_patch_rc'), demo_exit_without_patch=ver.get('demo_without_patch_rc')),
